@@ -1395,6 +1395,24 @@ def explore_c17(tier, seed):
                 viol(res, "C17", f"class-level attribute Simulation.{k} was changed by building / running simulations",
                      case={"before": str(v)[:200], "after": str(cls_after.get(k))[:200], "options": [sc_["sim"] for sc_ in scs]})
                 setattr(Simulation, k, copy.deepcopy(v))        # restore so that the rest of the exploration is not polluted
+        # a table that comes without technical coefficients (what pymrio leaves after an aggregation): refused or accepted, the
+        # caller's object is left as it was
+        try:
+            _io_na = scen.build_table(scs[0]["table"])
+            _io_na.A = None
+            _sn_na = {nm: deep_snapshot(getattr(_io_na, nm)) for nm in ("Z", "Y", "x")}
+            try:
+                scen.build_model(scs[0]["table"], scs[0]["model"], io=_io_na)
+            except Exception:
+                pass
+            if getattr(_io_na, "A", None) is not None:
+                viol(res, "C17", "the caller's table was modified (it had no technical coefficients, it has some after the model was built)",
+                     case=scen.summarize(scs[0]))
+            for nm, sn in _sn_na.items():
+                if not same_snapshot(sn, getattr(_io_na, nm)):
+                    viol(res, "C17", f"the caller's table (given without A) was modified (mriot.{nm})", case=scen.summarize(scs[0]))
+        except Exception as _e:
+            viol(res, "C17", f"table-without-A sequence fails: {type(_e).__name__}: {str(_e)[:120]}", case=scen.summarize(scs[0]))
         # inputs untouched + event reuse
         sc = scs[0]
         _N = sc["table"]["m"] * sc["table"]["n"]
@@ -1440,6 +1458,13 @@ def explore_c17(tier, seed):
                 if e.get("house"):
                     e["house"] = {kk: v * ratio for kk, v in e["house"].items()}
                 e["emf"] = new_f
+            if e["type"] == "recovery" and e.get("house") and rng.random() < 0.6:
+                # a household damage too small to matter (below the library's threshold): the library may ignore it, not erase it
+                # from the caller's Series
+                _regs, _s2, _cats = scen.labels(sc["table"])
+                free_ = [f"{r_}|{c_}" for r_ in _regs for c_ in _cats if f"{r_}|{c_}" not in e["house"]]
+                if free_:
+                    e["house"][rng.choice(free_)] = 3.0 / e["emf"]
             imp = scen._mi(dict(e["impact"]), ["region", "sector"])
             house = scen._mi(dict(e["house"]), ["region", "category"]) if e.get("house") else None
             rs = dict(e["reb_sectors"]) if e.get("reb_sectors") else None
